@@ -603,3 +603,112 @@ def a3(facts, tier):
                         n = sum(1 for y in calls(a["body"]) if callee(y) == "savefile_abi::destroy_trait_obj")
                         yield ob(["C09"], "A3", f"handler:{hid.split('::')[-1]}", "pass" if n == 1 else "violation", where(e, a["body"]),
                                  f"DropInstance handler destroys the object {n} time(s)")
+
+
+# ---------------------------------------------------------------------------------------------
+# M4: the schemas handed to the by-reference decision come from the right definitions
+
+def base_var(e):
+    e = peel(e)
+    while isinstance(e, dict):
+        k = e.get("k")
+        if k in ("Field", "Index", "Ref", "Deref", "Coerce", "Cast", "Try"):
+            e = e["e"]
+        elif k == "Call" and e.get("args"):
+            e = e["args"][0]
+        elif k == "Var":
+            return e["v"]
+        else:
+            return None
+        e = peel(e) if isinstance(e, dict) else e
+    return None
+
+
+def binding_init(f, var):
+    """the expression a variable is bound from inside f (let / let-else / for), or None"""
+    from .taint_rules import pat_binds
+    for x in walk(f["body"]):
+        k = x.get("k")
+        if k == "LetS" and x.get("init") is not None and any(b["v"] == var for b in pat_binds(x["pat"])):
+            return x["init"]
+        if k == "For" and any(b["v"] == var for b in pat_binds(x["pat"])):
+            return x["iter"]
+    return None
+
+
+def trace_root(facts, f, var, depth=0):
+    """follow a variable back to a parameter of the outermost enclosing function; returns the parameter name"""
+    if var is None or depth > 12:
+        return None
+    from .taint_rules import pat_binds
+    for i, p in enumerate(f["params"]):
+        if p.get("pat") and any(b["v"] == var for b in pat_binds(p["pat"])):
+            if f.get("kind") != "Closure":
+                return var.split("#")[0]
+            # closure parameter: find the call sites of this closure in the parent
+            parent = facts.fns.get(f.get("parent"))
+            if parent is None:
+                return None
+            # closures may be nested: search all functions with the same root
+            holders = [g for g in facts.fns.values() if g is parent or g.get("parent") == f.get("parent")]
+            cvar = None
+            for g in holders:
+                for x in walk(g["body"]):
+                    if x.get("k") == "LetS" and x["pat"].get("k") == "Bind" and peel(x.get("init") or {}).get("k") == "Closure" \
+                            and peel(x["init"])["id"] == f["id"]:
+                        cvar = (g, x["pat"]["v"])
+            if cvar is None:
+                return None
+            g, cv = cvar
+            roots = set()
+            for x in walk(g["body"]):
+                if x.get("k") == "Call" and (x.get("fn") or "").startswith("core::ops::function::Fn") and len(x["args"]) == 2 \
+                        and base_var(x["args"][0]) == cv:
+                    tup = peel(x["args"][1])
+                    idx = i - 1   # closure params: [closure env, a, b, ..]
+                    if tup.get("k") == "Tuple" and 0 <= idx < len(tup["es"]):
+                        roots.add(trace_root(facts, g, base_var(tup["es"][idx]), depth + 1))
+            return roots.pop() if len(roots) == 1 else ("|".join(sorted(str(r) for r in roots)) if roots else None)
+    init = binding_init(f, var)
+    if init is not None:
+        return trace_root(facts, f, base_var(init), depth + 1)
+    # captured variable of an enclosing function
+    if f.get("kind") == "Closure":
+        parent = facts.fns.get(f.get("parent"))
+        if parent is not None:
+            return trace_root(facts, parent, var, depth + 1)
+    return None
+
+
+ROLE = [("caller", "native"), ("callee", "native"), ("caller", "effective"), ("callee", "effective")]
+
+
+@rule("M4", ["C11", "C10"], floor=1, doc="the four schemas handed to arg_layout_compatible at connection creation originate from the caller's native, the "
+      "implementation's native, the caller's effective and the implementation's effective definition, in that order")
+def m4(facts, tier):
+    n = 0
+    for fid, f in facts.fns.items():
+        if f["crate"] != "savefile_abi" or "analyze_and_create" not in fid:
+            continue
+        for x in calls(f["body"]):
+            if callee(x) != "savefile_abi::arg_layout_compatible" or len(x["args"]) < 4:
+                continue
+            n += 1
+            bad = []
+            for i, (who, kind) in enumerate(ROLE):
+                root = trace_root(facts, f, base_var(x["args"][i]))
+                if root is None:
+                    bad.append(None)
+                elif not all(who in r and kind in r for r in str(root).split("|")):
+                    bad.append(f"argument {i + 1} ({who}'s {kind} schema) is taken from `{root}`")
+            real = [b for b in bad if b]
+            if real:
+                yield ob(["C11", "C10"], "M4", "layout-decision-inputs", "violation", where(f, x),
+                         "by-reference decision is made on the wrong definitions: " + "; ".join(real))
+            elif bad:
+                yield ob(["C11", "C10"], "M4", "layout-decision-inputs", "undecided", where(f, x), "origin of an argument could not be traced")
+            else:
+                yield ob(["C11", "C10"], "M4", "layout-decision-inputs", "pass", where(f, x),
+                         "native/effective schemas of caller and implementation reach the decision in the right order")
+    if n == 0:
+        yield ob(["C11", "C10"], "M4", "layout-decision-inputs", "violation", "", "no call of arg_layout_compatible at connection creation (anchor lost)")
